@@ -124,3 +124,7 @@ ENTRIES += [
       "            if response:\n                if response.body:\n                    response.body.close()\n\n            return True, wait_time\n", 'wpull/processor/web.py'),
     B('regress-robots-redirect-scheme', "                    if session.next_request().url_info.scheme \\\n                            not in ('http', 'https'):\n", "                    if False:\n", 'C09-D2', 'wpull/protocol/http/robots.py'),
 ]
+
+ENTRIES += [
+    B('ftp-path-unquote-surrogateescape', "            parts = [urllib.parse.unquote(part) for part in parts]\n", "            parts = [urllib.parse.unquote(part, errors='surrogateescape')\n                     for part in parts]\n", 'C09-D3', 'wpull/path.py'),
+]
